@@ -1,6 +1,7 @@
 package main
 
 import (
+	"time"
 	"bytes"
 	"encoding/binary"
 	"fmt"
@@ -31,7 +32,9 @@ func measureDecode(t reflect.Type, data []byte) (alloc uint64, class string) {
 	var m0, m1 runtime.MemStats
 	runtime.ReadMemStats(&m0)
 	var err error
-	func() {
+	done := make(chan struct{})
+	go func() {
+		defer close(done)
 		defer func() {
 			if p := recover(); p != nil {
 				class = "panic"
@@ -39,6 +42,11 @@ func measureDecode(t reflect.Type, data []byte) (alloc uint64, class string) {
 		}()
 		err = kmip.NewDecoder(r).Decode(tgt.Interface())
 	}()
+	select {
+	case <-done:
+	case <-time.After(5 * time.Second):
+		return 0, "timeout"
+	}
 	runtime.ReadMemStats(&m1)
 	if class == "" {
 		class = classifyErr(err)
@@ -162,6 +170,11 @@ func runC05(r *Result, d *drv.Driver, tier string, seed int64, replay string) {
 			nviol++
 			r.find(Finding{Kind: "violation", What: "Decode allocated more than the linear bound in the bytes received (" + strings.SplitN(in.origin, ":", 2)[0] + ")",
 				Input: map[string]string{"type": in.typ, "bytes": hx(in.data)}, Expect: fmt.Sprintf("<= %d", bound), Actual: fmt.Sprint(alloc)})
+		}
+		if class == "timeout" {
+			r.find(Finding{Kind: "violation", What: "Decode did not return on a hostile length (looping)", Input: map[string]string{"type": in.typ, "bytes": hx(in.data)}})
+			r.Notes = append(r.Notes, "run cut short after a Decode call that did not return")
+			break
 		}
 		if class == "panic" {
 			r.find(Finding{Kind: "violation", What: "Decode panicked on a hostile length", Input: map[string]string{"type": in.typ, "bytes": hx(in.data)}})
